@@ -279,9 +279,10 @@ def h_evolution_graph(d_kind: int, d_level: int, d_from: int, n0: int, n1: int, 
 def h_order5(b0: bool, b1: bool, b2: bool, b3: bool, b4: bool, b5: bool, b6: bool, b7: bool,
              b8: bool, b9: bool, b10: bool, b11: bool, b12: bool, b13: bool, b14: bool,
              b15: bool, b16: bool, b17: bool, b18: bool, b19: bool) -> bool:
-    """All digraphs on 5 nodes (thorough tier; 256 partitions on the first 8 edge bits).
+    """Digraphs on 5 nodes (thorough tier): partitioned on the first 12 edge bits; each partition
+    run is exhaustive over the remaining 8 bits, the set of partitions run is a seeded sample.
 
-    pre: hx.in_part(b0, b1, b2, b3, b4, b5, b6, b7)
+    pre: hx.in_part(b0, b1, b2, b3, b4, b5, b6, b7, b8, b9, b10, b11)
     post: _
     """
     bits = [b0, b1, b2, b3, b4, b5, b6, b7, b8, b9, b10, b11, b12, b13, b14, b15, b16, b17,
